@@ -100,6 +100,7 @@ type c06Server struct {
 	payloads [][]byte
 	script   []C06Fault
 	wg       sync.WaitGroup
+	stop     chan struct{} // closed when the case is over
 }
 
 func (s *c06Server) serve() {
@@ -132,6 +133,15 @@ func (s *c06Server) act(conn net.Conn, f C06Fault) {
 		conn.Write([]byte("HTTP/1.1 503 Service Unavailable\r\nContent-Length: 0\r\nConnection: close\r\n\r\n"))
 		if f.KeepOpen {
 			time.Sleep(300 * time.Millisecond)
+		}
+		conn.Close()
+	case "e5xx-body-hold":
+		// an early 5xx that carries the usual short explanation as a body, from a peer that then neither reads on nor
+		// closes the connection (until the case is over): whatever the agent still has to send backs up in the socket
+		conn.Write([]byte("HTTP/1.1 503 Service Unavailable\r\nContent-Type: text/plain\r\nContent-Length: 21\r\n\r\nupstream unavailable\n"))
+		select {
+		case <-s.stop:
+		case <-time.After(45 * time.Second):
 		}
 		conn.Close()
 	case "rst":
@@ -260,9 +270,12 @@ func c06Run(c C06Case, bound time.Duration) C06Result {
 		res.Panic = "listen: " + err.Error()
 		return res
 	}
-	srv := &c06Server{l: l, script: c.Attempts}
+	srv := &c06Server{l: l, script: c.Attempts, stop: make(chan struct{})}
 	go srv.serve()
 	defer l.Close()
+	var stopOnce sync.Once
+	stopHeld := func() { stopOnce.Do(func() { close(srv.stop) }) }
+	defer stopHeld()
 
 	target := "http://" + l.Addr().String() + "/"
 	refused := len(c.Attempts) > 0 && c.Attempts[0].Kind == "refused"
@@ -364,6 +377,7 @@ func c06Run(c C06Case, bound time.Duration) C06Result {
 	hm.Unlock()
 	if !res.Hang {
 		// let the server goroutines finish recording
+		stopHeld()
 		waited := make(chan struct{})
 		go func() { srv.wg.Wait(); close(waited) }()
 		select {
